@@ -115,26 +115,38 @@ def prediction_lookup_rule(repo, res, cls, fn):
     iv = repo.cls(U, "Interval")
     qn = "%s.occupancy_at_time_step" % cls.name
     q = Sym("queried_time_step", "int")
+    # three stored occupancies whose times are NOT in ascending order (nothing says a set is sorted); every comparison of
+    # times is answered by the valuation of the case
+    TIMES = {"time steps": [(5, 5), (3, 3), (4, 4)], "time intervals": [(8, 9), (2, 3), (5, 6)]}
+    QUERIES = {"time steps": [(5, 0), (3, 1), (4, 2), (9, None), (1, None)], "time intervals": [(8, 0), (3, 1), (5, 2), (7, None), (1, None)]}
     for kind in ("time steps", "time intervals"):
-        for hit in (0, 1, None):
-            occs = []
-            for i in (0, 1):
-                ts = Sym("t%d" % i, "int") if kind == "time steps" else Obj(iv, {"_start": Sym("a%d" % i, "int"), "_end": Sym("b%d" % i, "int")}, label="interval%d" % i)
+        for qv, hit in QUERIES[kind]:
+            occs, vals = [], {"queried_time_step": qv}
+            for i, (lo, hi) in enumerate(TIMES[kind]):
+                if kind == "time steps":
+                    ts = Sym("t%d" % i, "int")
+                    vals[ts.name] = lo
+                else:
+                    a_, b_ = Sym("a%d" % i, "int"), Sym("b%d" % i, "int")
+                    vals[a_.name], vals[b_.name] = lo, hi
+                    ts = Obj(iv, {"_start": a_, "_end": b_}, label="interval%d" % i)
                 occs.append(Obj(None, {"time_step": ts}, closed=True, label="occupancy%d" % i))
 
-            def oracle(kindop, a, b, occs=occs, hit=hit):
-                # equality of the query with a stored time step / containment in a stored interval
-                for i, o in enumerate(occs):
-                    ts = o.fields["time_step"]
-                    if kindop in ("Eq", "NotEq") and ((a is ts and b is q) or (a is q and b is ts)):
-                        return (i == hit) == (kindop == "Eq")
-                    if kindop == "truth" and isinstance(a, Ctor) and a.name in ("Interval.contains", "Interval.__contains__") and a.args.get("self") is ts:
-                        return i == hit
+            def oracle(kindop, a, b, occs=occs, vals=vals, qv=qv):
+                if kindop == "truth" and isinstance(a, Ctor) and a.name in ("Interval.contains", "Interval.__contains__"):
+                    for i, o in enumerate(occs):
+                        if a.args.get("self") is o.fields["time_step"]:
+                            lo, hi = TIMES["time intervals"][i]
+                            return lo <= qv <= hi
+                    return None
+                if kindop in ("Eq", "NotEq", "Lt", "LtE", "Gt", "GtE") and isinstance(a, Sym) and isinstance(b, Sym) and a.name in vals and b.name in vals:
+                    x, y = vals[a.name], vals[b.name]
+                    return {"Eq": x == y, "NotEq": x != y, "Lt": x < y, "LtE": x <= y, "Gt": x > y, "GtE": x >= y}[kindop]
                 return None
 
             me = Obj(cls, {"occupancy_set": ListV(occs), "_occupancy_set": ListV(occs)}, label="prediction")
             ev = _ev(repo, oracle, opaque=("Interval.contains", "Interval.__contains__"))
-            label = "%s, %s" % (kind, "no match" if hit is None else "occupancy %d matches" % hit)
+            label = "%s %s (not sorted), query %d: %s" % (kind, [t[0] if t[0] == t[1] else list(t) for t in TIMES[kind]], qv, "no match" if hit is None else "occupancy %d matches" % hit)
             bad = None
             try:
                 r = ev.call_fn(ev.bind(fn, cls, me), [q], {}, fn)
@@ -148,7 +160,7 @@ def prediction_lookup_rule(repo, res, cls, fn):
                 bad = "raises %s" % x.what
             except Undecided as x:
                 raise AnalysisError("%s [%s]: %s" % (qn, label, x))
-            res.check("OCC-DISPATCH", "%s [%s]: the matching stored occupancy, else None" % (qn, label), bad is None, cls.mod, fn, "%s [%s] %s" % (qn, label, bad), "an occupancy of another time step (or none although one matches) is returned", qualname=qn)
+            res.check("OCC-DISPATCH", "%s [%s]: the matching stored occupancy, else None" % (qn, label), bad is None, cls.mod, fn, "%s [%s] %s" % (qn, label, bad), "an occupancy of another time step (or none although one is stored) is reported", qualname=qn)
 
 
 # --------------------------------------------------------------------------- OCC-SCENARIO: whole-scenario queries
